@@ -74,6 +74,7 @@ type c16Group struct { // one unit of work for a worker process
 	Overhead uint64   `json:"overhead"`
 	Idx      int      `json:"group_index,omitempty"`
 	Of       int      `json:"groups,omitempty"`
+	Self     *c16Self `json:"selfcheck,omitempty"` // boundary self-check item, see inpkg_selfcheck.go
 }
 
 type c16Case struct {
@@ -1176,11 +1177,17 @@ func ZZVerifC16() {
 	}
 
 	groups := plan.groups()
-	items := make([]string, len(groups))
+	var items []string
+	if !dry {
+		for _, sg := range c16SelfGroups(thorough) { // long single items first
+			b, _ := json.Marshal(&sg)
+			items = append(items, string(b))
+		}
+	}
 	for i := range groups {
 		groups[i].Idx, groups[i].Of = i, len(groups)
 		b, _ := json.Marshal(&groups[i])
-		items[i] = string(b)
+		items = append(items, string(b))
 	}
 
 	r.Rule("Exhaustive cartesian enumeration, simplest model first, of: model shape (arch, block count, layer-size profile, output layer kind, in-model vision tower) x " +
@@ -1191,7 +1198,10 @@ func ZZVerifC16() {
 		"Each case runs the real EstimateGPULayers and PredictServerFit once and the five clauses are compared with the inputs. " +
 		"All value lists are de-duplicated, so the enumerated tuples are pairwise distinct inputs; evaluations counts them and distinct_nontrivial counts " +
 		"those in which the estimator placed at least one layer on a GPU (Layers>0: per-GPU bound, split sum and total>=vram are then non-vacuous). " +
-		"distinct_outcome counts distinct (library, gpus, blocks, Layers, TensorSplit, fit, full/partial graph) result classes.")
+		"distinct_outcome counts distinct (library, gpus, blocks, Layers, TensorSplit, fit, full/partial graph) result classes. " +
+		"Boundary self-check (selfcheck_* counters, not included in evaluations): for a few small configurations one GPU's FreeMemory is swept over every integer " +
+		"from 0 to beyond a complete fit, for every combination of enumerated values of the other GPUs; every point where the real estimator's result changes must have " +
+		"both neighbours in the enumerated value set, otherwise the run is marked not exhaustive.")
 	r.Assume(
 		"clause 1 is checked as GPUSizes[i] + OLLAMA_GPU_OVERHEAD <= FreeMemory[i] for every GPU with GPUSizes[i] > 0 (a GPU with nothing assigned is not compared)",
 		"clause 3 is checked whenever TensorSplit is non-empty (the estimator reports a split only for more than one GPU and at least one layer)",
@@ -1216,6 +1226,10 @@ func ZZVerifC16() {
 		var g c16Group
 		if err := json.Unmarshal([]byte(item), &g); err != nil {
 			panic(err)
+		}
+		if g.Self != nil {
+			c16SelfCheck(&g, sub)
+			return
 		}
 		c16Group1(&g, &plan, sub, dry)
 	})
